@@ -275,6 +275,13 @@ def one_case(ctx, seed, idx):
                     ctx.distinct('signature_shapes', gen.shape_of(t[0]))
         if not proxy_acceptance(ctx, r, parsed, [d for _, d in pairs], w, case):
             return
+        if nif >= 2 and idx % 3 == 0:
+            r_ = random.Random('%s/c15gro/%s' % (seed, idx))
+            through_get_remote_object(ctx, r_, xml_text, pairs, w, case)
+            I.DBusInterface.knownInterfaces.clear()
+            I.DBusInterface.knownInterfaces.update(saved)
+            for i_ in parsed:
+                I.DBusInterface.knownInterfaces.setdefault(i_.name, i_)
         if r.random() < 0.3:
             # the exporter changes a declared interface AFTER its XML was generated once (members re-declared under the
             # same name with other signatures, removed, added): the next XML describes the interface as it is now
@@ -396,6 +403,99 @@ def proxy_acceptance(ctx, r, parsed, declared, w, case):
                         return False
                     ctx.count('proxy_calls_refused')
     return True
+
+
+def through_get_remote_object(ctx, r, xml_text, pairs, w, case):
+    """The same XML reaching a real client connection as the reply to the Introspect call that getRemoteObject() makes
+    when it is given interface names it does not know: the proxy it hands out describes every interface as the XML does,
+    except that a definition known locally WHEN THE REPLY IS PARSED is reused unless replacement was requested."""
+    from harness import clientfix, ref_message as RM_
+    I.DBusInterface.knownInterfaces.clear()
+    I.DBusInterface.knownInterfaces.update(_REGISTRY_AT_IMPORT)
+    replace = r.random() < 0.5
+    other_replaces_meanwhile = (not replace) and r.random() < 0.4
+    name0 = pairs[0][1]['name']
+    local = I.DBusInterface(name0, I.Method('Alpha', 'i', 's'), I.Method('OnlyInLocal', 'ii', ''), I.Signal('Beta', 'u'))
+    local_desc = describe(local)
+    asked = [local if r.random() < 0.5 else name0] + [d['name'] for _, d in pairs[1:]]
+    if r.random() < 0.5:
+        asked.reverse()
+    peer = clientfix.Peer().ready()
+    out = clientfix.Outcome(peer.proto.getRemoteObject('org.verif.P', '/obj', asked, replaceKnownInterfaces=replace))
+    calls = [m for m in peer.take() if m.fields.get('member') == 'Introspect']
+    pw = dict(w, asked=[a if isinstance(a, str) else '<instance of %s>' % a.name for a in asked], replace=replace,
+              another_replacing_introspection_meanwhile=other_replaces_meanwhile, local_definition=local_desc)
+    ctx.count('get_remote_object_probes')
+    if len(calls) != 1 or out.fired:
+        ctx.report('proxy-without-introspection', 'getRemoteObject with an unknown interface name made %d Introspect calls '
+                   '(Deferred fired %d times before any reply)' % (len(calls), out.fired), pw, case)
+        peer.lose()
+        return
+    if other_replaces_meanwhile:
+        X.getInterfacesFromXML(xml_text, True)
+    peer.send(RM_.build(RM_.METHOD_RETURN, 9, {'reply_serial': calls[0].serial}, 's', [xml_text]))
+    try:
+        if out.fired != 1 or out.results[0][0] != 'ok':
+            ctx.report('proxy-unavailable', 'getRemoteObject over the generated XML ended with %r' % (
+                [(k, repr(v)[:200]) for k, v in out.results],), pw, case)
+            return
+        proxy = out.results[0][1]
+        have = {}
+        for i_ in proxy.interfaces:
+            have.setdefault(i_.name, []).append(describe(i_))
+        for k, (_, desc) in enumerate(pairs):
+            want = desc
+            if k == 0 and not replace and not other_replaces_meanwhile:
+                want = local_desc
+            got = have.get(desc['name'], [])
+            if len(got) != 1 or got[0] != want:
+                pw['proxy_describes'] = got
+                pw['expected'] = want
+                ctx.report('proxy-stale-definition' if got and got[0] == local_desc else 'proxy-definition',
+                           'proxy from getRemoteObject (replaceKnownInterfaces=%s) describes %s as %s' % (
+                               replace, desc['name'], 'the local definition held when the call was issued'
+                               if got and got[0] == local_desc else repr(got)[:120]), pw, case)
+                return
+        # acceptance, through the real proxy: calls of the expected definition of the first interface go out, the other
+        # definition's do not
+        want0 = local_desc if (not replace and not other_replaces_meanwhile) else pairs[0][1]
+        other0 = pairs[0][1] if want0 is local_desc else local_desc
+        for mname, t in [x for x in sorted(want0['methods'].items()) if set(x[1][0]) <= set('ynqiuxtdb')][:4]:
+            peer.take()
+            try:
+                proxy.callRemote(mname, *([0] * t[2]), interface=name0)
+            except Exception as e:
+                if isinstance(e, (TypeError, AttributeError)):
+                    pw['method'] = mname
+                    ctx.report('proxy-refuses-declared', 'proxy from getRemoteObject refused %s.%s with %d arguments: %r' % (
+                        name0, mname, t[2], e), pw, case)
+                    return
+                continue        # a value the signature cannot carry: not this probe's subject
+            sent = [m for m in peer.take() if m.fields.get('member') == mname]
+            if len(sent) != 1 or sent[0].fields.get('interface') != name0 or (sent[0].fields.get('signature') or '') != t[0]:
+                ctx.report('proxy-call-misdirected', 'accepted call %s went out as %r' % (
+                    mname, [(m.fields.get('interface'), m.fields.get('signature')) for m in sent]), pw, case)
+                return
+            ctx.count('get_remote_object_calls_accepted')
+        for mname, t in sorted(other0['methods'].items()):
+            if mname in want0['methods']:
+                continue
+            try:
+                proxy.callRemote(mname, *([0] * t[2]), interface=name0)
+            except AttributeError:
+                ctx.count('get_remote_object_calls_refused')
+                continue
+            except Exception:
+                continue
+            pw['method'] = mname
+            ctx.report('proxy-accepts-undeclared', 'proxy from getRemoteObject accepted %s.%s, which only the %s definition '
+                       'has' % (name0, mname, 'local' if other0 is local_desc else 'remote'), pw, case)
+            return
+    finally:
+        peer.lose()
+
+
+_REGISTRY_AT_IMPORT = dict(I.DBusInterface.knownInterfaces)
 
 
 def same_name_case(ctx, seed, idx):
